@@ -74,9 +74,13 @@ func genEdits(t *rapid.T, spell bool) []hdrEdit {
 	n := rapid.SampledFrom([]int{0, 0, 1, 1, 1, 2, 3}).Draw(t, "nedits")
 	var out []hdrEdit
 	for i := 0; i < n; i++ {
-		e := hdrEdit{Label: rapid.SampledFrom([]int64{3, 258, 259, 260, 258, 259, 260}).Draw(t, "gov-label"), InProt: rapid.Bool().Draw(t, "gov-prot")}
+		e := hdrEdit{Label: rapid.SampledFrom([]int64{3, 258, 259, 260, 258, 259, 260, 5, 6}).Draw(t, "gov-label"), InProt: rapid.Bool().Draw(t, "gov-prot")}
 		nv := rapid.SampledFrom(governedValues()).Draw(t, "gov-val")
 		e.Val, e.ValName = nv.v, nv.name
+		if (e.Label == 5 || e.Label == 6) && rapid.IntRange(0, 3).Draw(t, "iv-bstr") != 0 {
+			// IV / Partial IV (generic rule: never both in one layer, whichever bucket) as proper byte strings
+			e.Val, e.ValName = rc.Bytes([]byte{byte(e.Label)}), "bstr"
+		}
 		if spell {
 			sp := uint8(rapid.IntRange(0, rc.NumSpellings-1).Draw(t, "gov-sp"))
 			if sp == rc.SpInt64 || bridge.SpellingFits(e.Label, sp) {
